@@ -30,7 +30,7 @@ def main():
             meta = dict(meta, ran=meta.get('author_ran'))
         env = dict(os.environ, PYTHONPATH=f'{wt}/src', MPLBACKEND='Agg')
         import re
-        demo_src = re.sub(r'/tmp/mutwt[2345]?/C\d+', wt, open(a.demo).read())     # demos may assert the path of the author's worktree
+        demo_src = re.sub(r'/tmp/mutwt[2-9]?/C\d+', wt, open(a.demo).read())     # demos may assert the path of the author's worktree
         demo_run = os.path.join(wt, '_demo_under_evaluation.py')
         open(demo_run, 'w').write(demo_src)
         d0 = subprocess.run(['/venv/bin/python', demo_run], env=env, capture_output=True, text=True, cwd=wt)
